@@ -22,19 +22,33 @@ pub fn plan(prop: &str, tier: &str) -> Vec<PartPlan> {
     let h = |q: u32, th: u32| if t { pp("hist", 16, th / 16) } else { pp("hist", 16, q / 16) };
     match prop {
         "C01" => vec![h(16000, 384000)],
-        "C02" => vec![if t { pp("deliver", 16, 40000 / 16) } else { pp("deliver", 16, 3200 / 16) }],
+        "C02" => vec![if t { pp("deliver", 16, 240000 / 16) } else { pp("deliver", 16, 16000 / 16) }],
         "C03" => vec![h(16000, 384000)],
         "C04" => vec![h(16000, 384000)],
         "C05" => vec![h(8000, 128000), if t { pp("trees", 16, 1_000_000 / 16) } else { pp("trees", 16, 40_000 / 16) }, pp("tree-exhaustive", 16, 0)],
         "C06" => vec![h(12000, 256000), pp("merge-exhaustive", 16, 0)],
         "C07" => vec![h(12000, 256000)],
         "C08" => vec![h(16000, 384000)],
+        "C09" => vec![if t { pp("faults", 16, 160000 / 16) } else { pp("faults", 16, 12000 / 16) }],
+        "C10" => {
+            let mut b = if t { pp("damage-b", 8, 40000 / 8) } else { pp("damage-b", 8, 8000 / 8) };
+            b.env = vec![("MELDA_ARRAYDESCRIPTORS_CACHE_CAP".to_string(), "1".to_string()), ("MELDA_DATA_CACHE_CAP".to_string(), "1".to_string())];
+            vec![if t { pp("damage", 16, 64000 / 16) } else { pp("damage", 16, 8000 / 16) }, b]
+        }
         "C11" => vec![h(12000, 256000)],
         "C12" => vec![h(16000, 384000)],
         "C13" => vec![h(12000, 256000)],
         "C14" => vec![h(12000, 256000)],
         "C15" => vec![h(16000, 384000)],
-        "C16" => vec![pp("diff-exhaustive", 16, 0)],
+        "C16" => {
+            let mut v = vec![pp("diff-exhaustive", 16, 0)];
+            for (name, cap) in [("chains-cap1", "1"), ("chains-cap2", "2"), ("chains-cap3", "3"), ("chains-cap16", "16")] {
+                let mut p = pp(name, 4, if t { 100_000 / 4 } else { 6000 / 4 });
+                p.env = vec![("MELDA_ARRAYDESCRIPTORS_CACHE_CAP".to_string(), cap.to_string()), ("MELDA_DATA_CACHE_CAP".to_string(), cap.to_string())];
+                v.push(p);
+            }
+            v
+        }
         "C19" => vec![h(8000, 128000), if t { pp("revs", 16, 400_000 / 16) } else { pp("revs", 16, 20_000 / 16) }],
         _ => vec![],
     }
@@ -66,9 +80,11 @@ pub fn rule(prop: &str, tier: &str) -> String {
     }
     match prop {
         "C02" => v.push("[deliver] a generated multi-replica history builds a block graph; all its item files are delivered one at a time in a generated permutation (optionally packs last, optionally permuted listing) to a fresh replica with refresh after each file (= every prefix of the permutation); graphs with <=4 (quick) / <=5 (thorough) items: every permutation; after each delivery: incremental == full reload, applied set == reference causal closure, state == replica holding only the closure, heads == closure heads; non-trivial = >=4 items with a child block delivered before a parent and a block before its pack".into()),
+        "C09" => v.push("[faults] generated multi-replica history; for EVERY commit and meld in it: the storage snapshot at every write boundary is opened by a fresh replica (must equal the state of the intact causally complete items only; a block present must be complete, i.e. never before its pack; before the block is written the state equals the previous state), then the history prefix is re-executed with write k of that operation failing, for every k (single and repeated failure; <=16/48 re-runs per history): failed commit reports an error, keeps the staged changes and the visible state, the retry succeeds and reopening equals the fault-free twin; meld under failures followed by a fault-free meld equals the twin; non-trivial = history with a commit writing pack+block, an injected commit failure and a meld of >=3 items or an injected meld failure".into()),
+        "C10" => v.push("[damage] generated multi-replica history, fully exchanged; then 1-4 generated faults (bit flip at a generated position, truncation to a generated length, emptying, deletion, injection of 16 kinds of junk files incl. over-long indices, extension-only names and hash-valid but malformed blocks), each alone and all together, plus a sweep over the positions of one item (bit flip + truncation at every stride-th byte; every byte for items <=700 B in thorough); a fresh replica opened on the damaged storage must report an error or equal (state and applied blocks) a replica on the reference closure of the intact items, never abort, and show only submitted contents; the same through refresh on a live replica that had loaded a generated prefix. non-trivial = a fault that invalidates an item on which other blocks depend. [damage-b] capacity-1 caches: packs damaged after indexing; get_value of every revision returns an error or the intact value, read() may fail but shows only submitted contents".into()),
         "C05" => v.push("[trees] generated (revision,parent) sets: several creations, update/delete/marker children, dangling parents, chains past index 10/100, inserted in 2-6 generated permutations via add and unvalidated_add+validate; RevisionTree leaves/winner vs reference rule; non-trivial = >=2 live leaves and (marker | dangling parent | index>=10). [tree-exhaustive] every shape with <=4 (quick) / <=5 (thorough) nodes x every insertion order".into()),
         "C06" => v.push("[merge-exhaustive] merge_arrays on every ordered pair of duplicate-free sequences (6 symbols/len<=6 quick; 7 symbols/len<=6 thorough) and every triple folded on a base (5/4; 6/4): union exactly once, base order kept, other order kept when the versions agree on common elements; non-trivial = both sides contribute an element or disagree on order".into()),
-        "C16" => v.push("[diff-exhaustive] every ordered pair of sequences with repeats over 4 symbols (len<=5 quick, <=6 thorough): apply(make(a,b),a)==b with melda's applier and, after a JSON text round trip, with the reference applier; script empty iff a==b; non-trivial = script with >=2 operations".into()),
+        "C16" => v.push("[chains-capN] one replica, chains of 2-40 (60) successive versions of two flattened arrays (insert, remove, rotate, reverse, empty, refill, move across arrays, key removal/re-addition, identical successive edits) with commits, reopens and snapshots interleaved, run in worker processes with MELDA_ARRAYDESCRIPTORS_CACHE_CAP = MELDA_DATA_CACHE_CAP in {1,2,3,16}; read()==submitted after every step and every stored version on the parent chain rebuilt by the reference applier == what was submitted for that revision; non-trivial = chain >=5 with an emptying and refill. [diff-exhaustive] every ordered pair of sequences with repeats over 4 symbols (len<=6 quick, <=7 thorough): apply(make(a,b),a)==b with melda's applier and, after a JSON text round trip, with the reference applier; script empty iff a==b; non-trivial = script with >=2 operations".into()),
         "C19" => v.push("[revs] generated revision pools built through the Revision API (creation/update/deletion/marker, chains crossing 9->10, 99->100, 999->1000): purity, new_updated == new(index+1), identifier == reference function of (digest, parent id), print/parse round trip incl. hash, and over generated triples totality/antisymmetry/transitivity/consistency with equality and agreement with the reference order; non-trivial = triple mixing marker+deletion+update or a boundary-crossing chain".into()),
         _ => {}
     }
@@ -88,11 +104,24 @@ pub fn run_part(prop: &str, part: &str, tier: &str, cases: u32, seed: u64, _shar
             let strat = props::case_strategy(&cfg);
             runner::drive("hist", prop, strat, cases, seed, |c| hist_case(&cfg, c))
         }
+        p if p.starts_with("chains-cap") => {
+            let name = part.to_string();
+            runner::drive(&name, prop, crate::c16::strategy(tier == "thorough"), cases, seed, |c| crate::c16::run(c))
+        }
         "trees" => runner::drive("trees", prop, crate::unit::tree_strategy(), cases, seed, crate::unit::run_tree),
         "revs" => runner::drive("revs", prop, crate::unit::rev_strategy(), cases, seed, crate::unit::run_rev),
         "tree-exhaustive" => crate::unit::tree_exhaustive(tier == "thorough", _shard, _nshards),
         "merge-exhaustive" => crate::unit::merge_exhaustive(tier == "thorough", _shard, _nshards),
         "diff-exhaustive" => crate::unit::diff_exhaustive(tier == "thorough", _shard, _nshards),
+        "damage" => {
+            let th = tier == "thorough";
+            runner::drive("damage", prop, crate::c10::strategy(th), cases, seed, |c| crate::c10::run(c, th))
+        }
+        "damage-b" => runner::drive("damage-b", prop, crate::c10::strategy(tier == "thorough"), cases, seed, |c| crate::c10::run_b(c)),
+        "faults" => {
+            let th = tier == "thorough";
+            runner::drive("faults", prop, crate::c09::strategy(th), cases, seed, |c| crate::c09::run(c, th))
+        }
         "deliver" => {
             let th = tier == "thorough";
             runner::drive("deliver", prop, crate::c02::strategy(th), cases, seed, |c| crate::c02::run(c, th))
@@ -108,6 +137,16 @@ pub fn replay_part(prop: &str, part: &str, case: &Value) -> Option<(String, Stri
             let case: props::Case = serde_json::from_value(case.clone()).ok()?;
             runner::replay(prop, &case, 20, |c| hist_case(&cfg, c))
         }
+        p if p.starts_with("chains-cap") => {
+            let case: Vec<crate::c16::ChainOp> = serde_json::from_value(case.clone()).ok()?;
+            let cap = p.trim_start_matches("chains-cap").to_string();
+            std::env::set_var("MELDA_ARRAYDESCRIPTORS_CACHE_CAP", &cap);
+            std::env::set_var("MELDA_DATA_CACHE_CAP", &cap);
+            let r = runner::replay(prop, &case, 3, |c| crate::c16::run(c));
+            std::env::remove_var("MELDA_ARRAYDESCRIPTORS_CACHE_CAP");
+            std::env::remove_var("MELDA_DATA_CACHE_CAP");
+            r
+        }
         "trees" => {
             let case: crate::unit::TreeCase = serde_json::from_value(case.clone()).ok()?;
             runner::replay(prop, &case, 1, crate::unit::run_tree)
@@ -115,6 +154,23 @@ pub fn replay_part(prop: &str, part: &str, case: &Value) -> Option<(String, Stri
         "revs" => {
             let case: crate::unit::RevCase = serde_json::from_value(case.clone()).ok()?;
             runner::replay(prop, &case, 1, crate::unit::run_rev)
+        }
+        "damage" => {
+            let case: crate::c10::C10Case = serde_json::from_value(case.clone()).ok()?;
+            runner::replay(prop, &case, 10, |c| crate::c10::run(c, true))
+        }
+        "damage-b" => {
+            let case: crate::c10::C10Case = serde_json::from_value(case.clone()).ok()?;
+            std::env::set_var("MELDA_ARRAYDESCRIPTORS_CACHE_CAP", "1");
+            std::env::set_var("MELDA_DATA_CACHE_CAP", "1");
+            let r = runner::replay(prop, &case, 10, |c| crate::c10::run_b(c));
+            std::env::remove_var("MELDA_ARRAYDESCRIPTORS_CACHE_CAP");
+            std::env::remove_var("MELDA_DATA_CACHE_CAP");
+            r
+        }
+        "faults" => {
+            let case: crate::c09::C09Case = serde_json::from_value(case.clone()).ok()?;
+            runner::replay(prop, &case, 10, |c| crate::c09::run(c, true))
         }
         "deliver" => {
             let case: crate::c02::C02Case = serde_json::from_value(case.clone()).ok()?;
